@@ -14,7 +14,7 @@ TECHNIQUE = 'deterministic simulation with connection/byte accounting at the pee
 LEVEL = 'exploration'
 BUDGET = {'quick': 200, 'thorough': 2400}
 NCASES = {'quick': 1200, 'thorough': 8000}
-RULE = ('cases: server profile (host-key list, kex list incl. GEX algorithms and moduli policy), admission policy {always, throttle/silent/close/refuse/blackhole from connection k}, '
+RULE = ('cases: server profile (host-key list, kex list incl. GEX algorithms and moduli policy; a fifth of them listing one name up to 13 times), admission policy {always, throttle/silent/close/refuse/blackhole from connection k}, '
         'rate test on/off, RTT in {0.04 ms .. 200 ms}, clock {fine, 10 ms quanta, forward jump}, optional probe-phase fault. non-trivial: >= 2 connections were opened; distinct by '
         '(behaviour class, admission policy, RTT regime, rate test on/off, number of probe types).')
 ASSUMPTIONS = ['bound: 1 (+1 SSH-1 fallback) + one per advertised probe-able host-key type (RSA family once) + 9 per advertised GEX algorithm (+ up to 1 per host-key type again is NOT allowed) '
@@ -40,6 +40,16 @@ def cases(seed, tier):
                         'grp_min': rng.choice([1024, 2048])}
         if rng.random() < 0.08:
             p = {'banner': 'SSH-1.5-OpenSSH_3.0', 'ssh2': False, 'ssh1': {'cmask': 0x48, 'amask': 0x0c, 'hkey_bits': 1024, 'skey_bits': 768}}
+        r2 = gen.case_rng(seed, ID, i, 'repeats')
+        if 'kex' in p and r2.random() < 0.2:
+            # a peer may list a name more than once; the footprint is per algorithm / key type, not per list entry
+            for cat in r2.choice([['kex'], ['key'], ['kex', 'key']]):
+                names = [n for n in p[cat] if n in gen.GEX] or list(p[cat])
+                if names:
+                    n = r2.choice(names)
+                    reps = [n] * r2.choice([1, 2, 5, 12])
+                    at = r2.randrange(len(p[cat]) + 1)
+                    p[cat] = p[cat][:at] + reps + p[cat][at:] if r2.random() < 0.5 else p[cat] + reps
         adm = rng.choice(['always', 'always', 'throttle', 'silent', 'close', 'refuse_after', 'blackhole_after'])
         if adm != 'always':
             p['admission'] = {'mode': adm, 'after': rng.choice([1, 2, 3, 5, 8, 12, 20, 30])}
